@@ -17,6 +17,7 @@ import (
 	"go/types"
 	"os"
 	"sort"
+	"strings"
 
 	"golang.org/x/tools/go/cfg"
 )
@@ -197,6 +198,16 @@ func loopCarried(p *Prog, fn *FuncInfo) (found []carried, loops int, vars int) {
 	var g *cfg.CFG
 	var walkLoops func(n ast.Node)
 	seenLoop := map[ast.Stmt]bool{}
+	// the once-loop an expanded helper's early returns break out of runs its body once: not a loop
+	onceLoops := map[ast.Stmt]bool{}
+	ast.Inspect(fn.Decl.Body, func(n ast.Node) bool {
+		if ls, ok := n.(*ast.LabeledStmt); ok && strings.HasPrefix(ls.Label.Name, "inlonce") {
+			if f, ok := ls.Stmt.(*ast.ForStmt); ok && f.Cond == nil && f.Post == nil && f.Init == nil {
+				onceLoops[f] = true
+			}
+		}
+		return true
+	})
 	walkLoops = func(root ast.Node) {
 		ast.Inspect(root, func(n ast.Node) bool {
 			var body *ast.BlockStmt
@@ -210,7 +221,7 @@ func loopCarried(p *Prog, fn *FuncInfo) (found []carried, loops int, vars int) {
 				// loops inside literals: analysed on the literal's own graph below
 				return true
 			}
-			if loop == nil || seenLoop[loop] {
+			if loop == nil || seenLoop[loop] || onceLoops[loop] {
 				return true
 			}
 			seenLoop[loop] = true
